@@ -76,6 +76,10 @@ def check_op(sc, obs, opi, add):
     entered = collections.Counter(c[5] for c in tasks)
 
     # ---- C02 ----
+    if entered.get(-1):
+        # the user function was entered with something that is not one of the submitted tasks (e.g. a second, differently
+        # packed invocation of a task)
+        add('C02', 'unexpected_invocation', {'calls_with_unrecognised_arguments': entered[-1], 'example': [c[:6] for c in tasks if c[5] == -1][:2]})
     dup = {k: v for k, v in entered.items() if v > 1}
     if dup:
         add('C02', 'exec_at_most_once', {'task_indices_executed_more_than_once': dict(list(dup.items())[:5])})
@@ -270,7 +274,7 @@ def check_op(sc, obs, opi, add):
 
 def expected_exc_types(op):
     f = op.get('fail') or {}
-    return {'ValueError': 'ValueError', 'Custom': 'CustomError', 'Attr': 'AttrError', 'SystemExit': 'SystemExit', 'KeyError': 'KeyError', 'Wrap': 'WrapError', 'Prefix': 'PrefixedError'}.get(f.get('exc', 'ValueError'))
+    return {'ValueError': 'ValueError', 'Custom': 'CustomError', 'Attr': 'AttrError', 'SystemExit': 'SystemExit', 'KeyError': 'KeyError', 'Wrap': 'WrapError', 'Prefix': 'PrefixedError', 'TypeError': 'TypeError'}.get(f.get('exc', 'ValueError'))
 
 
 def check_failure_op(sc, obs, opi, add, latency_bound=None):
